@@ -387,6 +387,25 @@ def check (ps : PState) (evLine : String) (obs : List String) (fault : Option St
         if (prev.tx.all fun t => t.1 != s!"p{peer}-{seq}") then
           fs := fs ++ [s!"C09 outstanding request p{peer}-{seq} has no bookkeeping entry under its wire sequence number"]
       | _, _ => pure ()
+    -- C09 / C06: an expiry concerns the kind of transaction its timer was started for, and only that one — a request timer
+    -- never touches the retained responses, a retention timer never retries or abandons a request, an expiry that matches
+    -- nothing (the transaction completed while the expiry was queued) has no effect at all
+    if typ == "tmo" then
+      let k := lookD m "k" ""
+      let key := s!"p{peer}-{seq}"
+      if k == "tx" then
+        if d.rx != prev.rx then
+          fs := fs ++ [s!"C09 the expiry of the request timer {key} changed the retained responses ({reprStr prev.rx} before, {reprStr d.rx} after): it belongs to requests sent, not to requests received",
+                       s!"C06 the retained response of a received request was released by the expiry of a request timer ({key}), before its retention window ended"]
+        if !(prev.tx.any fun t => t.1 == key) && (d.tx != prev.tx || !sends.isEmpty) then
+          fs := fs ++ [s!"C09 the expiry of request timer {key}, which matches no outstanding request, had an effect"]
+      if k == "rx" then
+        if d.tx != prev.tx || !sends.isEmpty then
+          fs := fs ++ [s!"C09 the expiry of the retention timer of received request {key} retried or abandoned an outstanding request ({reprStr prev.tx} before, {reprStr d.tx} after, {sends.length} datagram(s) sent)"]
+        if prev.rx.contains key && d.rx.contains key then
+          fs := fs ++ [s!"C06 the retained response of {key} was not released at the end of its retention window"]
+        if d.rx.filter (· != key) != prev.rx.filter (· != key) then
+          fs := fs ++ [s!"C06 the retention expiry of {key} changed the retained responses of other requests"]
     return fs
   -- C11 (external): expected numbering from the history of Create URR IEs and emitted reports
   let createdUrrs (key : String) : List Nat := ((listOf (lookD m key "_")).map fun t => (splitOn1 t '/').headD "-").filterMap parseId
@@ -570,6 +589,11 @@ def check (ps : PState) (evLine : String) (obs : List String) (fault : Option St
               if !(srcs.any fun r => usarCarries u r info) then
                 fs := fs ++ [s!"C10 usage report of URR {u.urr} in the {s.kind} of session {hexN seid} (trigger {u.trig}, times {u.times}, volume {u.vol}, duration {u.dur}) " ++
                              s!"is not one of the reports the data plane produced for it in this event, carried as measured: {reprStr (srcs.filter (·.urr == u.urr))}"]
+                -- C19: everything but the trigger octets is as measured — the flag word on the wire is not the word the report was
+                -- produced with (TERMR / IMMER apart, which the control plane adds itself)
+                if srcs.any fun r => usarCarries { u with trig := r.trig } r info then
+                  fs := fs ++ [s!"C19 the Usage Report Trigger octets of URR {u.urr}'s report in the {s.kind} of session {hexN seid} decode to flag word {u.trig}; " ++
+                               s!"the data plane produced that report with {reprStr ((srcs.filter (·.urr == u.urr)).map (·.trig))} (only TERMR / IMMER may be added)"]
         -- a notification's reports for URRs the session knows are all delivered (none missing, none twice)
         if typ == "report" then
           for uid in (srcs.map (·.urr)).eraseDups do
@@ -634,6 +658,8 @@ def check (ps : PState) (evLine : String) (obs : List String) (fault : Option St
                 -- address the old node associated from — the takeover finding (C05 takeoverNode) as it shows in reports
                 let sig := if ps.tookOver.contains seid && !n.startsWith "4:p" then " sig=takeoverNode" else ""
                 fs := fs ++ [s!"C10 the Session Report Request for session {hexN seid} (node {n}) went to p{s.peer}; the node that owns the session is at p{w}{sig}"]
+                if lookD s.f "dldr" "-" != "-" then
+                  fs := fs ++ [s!"C13 the downlink-data notification of session {hexN seid} (node {n}) was raised towards p{s.peer}; the SMF that owns the session is at p{w}{sig}"]
     return fs
   let tookOver' := (if isTakeover then seid :: ps.tookOver else ps.tookOver).filter fun u => (d.live u).isSome
   let hadTakeover' := ps.hadTakeover || (typ == "recv" && kind == "mod" && lookD m "node" "-" != "-" && !isDup && (prev.live seid).isSome)
